@@ -328,6 +328,14 @@ func cborencGen(args []string) error {
 						c.Es = append(c.Es, kv{ints(enc(&cnode{mt: kmt, data: kb})), ints(enc(genNode(r, 1)))})
 					}
 				}
+				if r.Intn(4) == 0 || id <= 2*len(fingerprintTwins()) { // distinct keys a cheap fingerprint cannot tell apart (twins.go)
+					tws := fingerprintTwins()
+					tw := tws[id%len(tws)]
+					kmt := 2 + (id/len(tws))%2
+					for _, kb := range []string{tw.A, tw.B} {
+						c.Es = append(c.Es, kv{ints(enc(&cnode{mt: kmt, data: []byte(kb)})), ints(enc(genNode(r, 1)))})
+					}
+				}
 				if m > 0 && r.Intn(3) == 0 { // equal keys
 					c.Es = append(c.Es, kv{c.Es[r.Intn(m)].K, ints(enc(genNode(r, 1)))})
 				}
